@@ -23,7 +23,7 @@ func init() {
 		Doc: "help scan: index of the first -h/--help, -1 at the first `--` (unconditionally, inside the loop) or at the end", Run: cmd4})
 	register(&Rule{ID: "CMD-5", Props: []string{"C14", "C04"}, Floor: 4,
 		Doc: "version: tested before anything else, only on args[0] under a length guard against the declared version option's names; prints, signals the sentinel, returns nil", Run: cmd5})
-	register(&Rule{ID: "CMD-6", Props: []string{"C04", "C14", "C07", "C10", "C02", "C15"}, Floor: 4,
+	register(&Rule{ID: "CMD-6", Props: []string{"C04", "C14", "C07", "C10", "C02", "C15", "C09", "C01"}, Floor: 4,
 		Doc: "routing: a child is entered only after doInit (error: panic) and isAlias(token) on that child, with exactly the tokens after the alias; the level's own tokens args[:n] are validated first (except on the help descent); fsm is assigned only in doInit", Run: cmd6})
 	register(&Rule{ID: "CMD-7", Props: []string{"C04", "C10"}, Floor: 3,
 		Doc: "level split: number of tokens before the first alias of a direct sub-command; isAlias ranges over all aliases; aliases = strings.Fields(name)", Run: cmd7})
@@ -2003,6 +2003,47 @@ func cmd6(c *Ctx) {
 		}
 	}
 	c.Check(okVal, Q(fn)+":own-tokens", fn.Pos(), "this level's automaton validates exactly args[:n], n the level split", "the level does not validate exactly its own tokens args[:n] with its own automaton")
+	// the command line reaches the root level as it was given: Run hands args[1:] to the root's parse,
+	// which hands its vector on unchanged
+	if run, rootParse := c.fnOpt("", "Cli.Run"), c.fnOpt("", "Cli.parse"); run != nil && rootParse != nil {
+		c.Mark(run)
+		okRun := false
+		var rp *ssa.Parameter
+		for _, p := range run.Params {
+			if isStringSlice(p.Type()) {
+				rp = p
+			}
+		}
+		for _, cv := range callsTo(run, rootParse) {
+			for _, a := range cv.Call.Args {
+				if sl, isSl := a.(*ssa.Slice); isSl && sl.X == ssa.Value(rp) && sl.High == nil {
+					if lo, isC := ir.ConstInt(sl.Low); isC && lo == 1 {
+						okRun = true
+					}
+				}
+			}
+		}
+		mk := len(c.Obs)
+		c.Check(okRun, Q(run)+":vector", run.Pos(), "the root level receives args[1:] of the vector Run was given", "Run does not hand args[1:] of its own parameter to the root level: the command line is altered before it is routed")
+		c.Scope(mk, "C01", "C02", "C04", "C09")
+		okRoot := false
+		var pp *ssa.Parameter
+		for _, p := range rootParse.Params {
+			if isStringSlice(p.Type()) {
+				pp = p
+			}
+		}
+		for _, cv := range callsTo(rootParse, fn) {
+			for _, a := range cv.Call.Args {
+				if a == ssa.Value(pp) {
+					okRoot = true
+				}
+			}
+		}
+		mk = len(c.Obs)
+		c.Check(okRoot, Q(rootParse)+":vector", rootParse.Pos(), "the root's parse hands its vector on unchanged", "the root's parse does not hand its own vector to the command parser")
+		c.Scope(mk, "C01", "C02", "C04", "C09")
+	}
 	// recursive descents
 	n := 0
 	for _, call := range ir.Calls(fn) {
